@@ -910,6 +910,31 @@ def construction_stacks(ctx):
             ctx.ob("R15.13", "%s|pushed-before-replaced" % gname, ok, f.loc(x), "`%s` is %spreceded by a push of the previous %s" % (show(x)[:50], "" if ok else "NOT ", gname))
         ctx.ob("R15.13", "%s|popped-at-end" % gname, bool(pops), fns[0].loc(), "%d place(s) restore %s from the stack" % (len(pops), gname))
     ctx.floor("R15.13", "sites starting a class/enum definition", n, 3)
+    # the declared type of `T a = ..., b;`: set where the declarators begin (the block that also pushes the storage
+    # class); an initializer can contain a class definition whose members are declarations themselves
+    n_t = 0
+    for f in fns:
+        for x in f.walk():
+            t = assigned_target(x)
+            if not t or (strip_casts(peel(t[0])) or {}).get("n") != "current_type" or (strip_casts(peel(t[0])) or {}).get("dk") != "global":
+                continue
+            lx = f.cfg.locate(x)
+            if lx is None:
+                continue
+            comp = None
+            for a in f.ancestors(x):
+                if a.get("k") in ("switch", "case", "default"):
+                    break
+                if a.get("k") == "block" and any(c.get("k") == "call" and callee_short(c) == "push_storage_class" for c in walk(a)):
+                    comp = a
+                    break
+            starts_decl = comp is not None
+            comp_pushed = comp is not None and any(c.get("k") == "call" and callee_short(c) == "push_back" and any((strip_casts(peel(a2)) or {}).get("n") == "current_type" for a2 in c.get("a", [])) for c in walk(comp))
+            if not starts_decl:
+                continue
+            n_t += 1
+            ctx.ob("R15.13", "current_type|pushed-before-replaced", bool(comp_pushed), f.loc(x), "the declared type of a declarator list is %ssaved before it is replaced" % ("" if comp_pushed else "NOT "))
+    ctx.floor("R15.13", "declarator-list sites setting current_type", n_t, 2)
 
 
 
